@@ -42,22 +42,34 @@ def check(run):
                 run.check(fi is gate, r, fi.short, 'contract evaluator call ' + q.unparse(c.func)[:50],
                           'contract conditions are evaluated outside the gate (would run with ignore_contract=True)', c)
     run.floor(n, 1, r, 'contract evaluator call sites')
-    gates = [st for st in G.body if isinstance(st, ast.If) and q.canon_atom(st.test) == ('truthy', 'self._ignore_contract', '', True)]
-    first = gates[0] if gates else G.body[0]
-    before = G.body[:G.body.index(first)] if gates else []
-    inert = all(not any(isinstance(x, (ast.Call, ast.Raise, ast.For, ast.While, ast.Attribute)) for x in ast.walk(st)) for st in before)
-    good = bool(gates) and inert and \
-        len(first.body) == 1 and isinstance(first.body[0], ast.Return) and (first.body[0].value is None or isinstance(first.body[0].value, ast.Constant) and first.body[0].value.value is None) and not first.orelse
-    run.check(good, r, gate.short, 'first statement: `if self._ignore_contract: return`', 'the gate is not the first effectful statement', first)
-    if good:
-        cfg = build_cfg(G)
-        tn = cfg.node_of(first)
-        for c in q.calls(G):
-            st = q.enclosing_stmt(c)
-            if q.in_node(c, first):
-                continue
-            run.check(cfg.dominates(tn, cfg.node_of(c)) and ('falsy', 'self._ignore_contract', '') in guard_atoms(c), r, gate.short,
-                      'gate dominates ' + q.unparse(c.func)[:40], 'call not protected by the gate', c)
+    # every call, raise and loop of the gate function runs only when _ignore_contract is not set (early return or enclosing test alike):
+    # on each path to it, the test of the flag has been passed on its "not set" side
+    def classify_g(op, l, r_, e):
+        if op == 'truthy' and l == 'self._ignore_contract':
+            return 'IGNORE'
+        return None
+    n_eff = 0
+    for x in q.walk(G, False):
+        if not isinstance(x, (ast.Call, ast.Raise, ast.For, ast.While)):
+            continue
+        st = x if isinstance(x, ast.stmt) else q.enclosing_stmt(x)
+        if isinstance(x, ast.Call) and any(isinstance(p_, ast.If) and q.in_node(x, p_.test) and 'self._ignore_contract' in q.unparse(p_.test) for p_ in [st]):
+            continue
+        n_eff += 1
+        dnf = q.reach_dnf(st)
+        ba = q.BoolAbs(classify_g)
+        for conj in dnf:
+            for e_, pol in conj:
+                ba.ev(e_, {})
+        vs = list(ba.vars)
+        okg = 'IGNORE' in vs
+        for mask in range(1 << len(vs)):
+            val = {v: bool(mask >> i_ & 1) for i_, v in enumerate(vs)}
+            if val.get('IGNORE') and q.dnf_holds(ba, dnf, val):
+                okg = False
+        run.check(okg, r, gate.short, 'runs only when contracts are not ignored: ' + (q.unparse(x.func)[:40] if isinstance(x, ast.Call) else type(x).__name__),
+                  'reachable with ignore_contract=True', x)
+    run.floor(n_eff, 2, r, 'calls / raises / loops in the gate function')
     nwr = 0
     for fi in prog.functions():
         if fi.outer is not None:
@@ -76,7 +88,8 @@ def check(run):
         for n_ in q.walk(fi.node):
             if isinstance(n_, ast.Attribute) and n_.attr == '_ignore_contract' and isinstance(n_.ctx, ast.Load):
                 nrd += 1
-                run.check(fi is gate and gates and q.in_node(n_, gates[0].test), r, fi.short, 'read of _ignore_contract in the gate test only',
+                in_test = any(isinstance(p_, ast.If) and q.in_node(n_, p_.test) for p_ in q.walk(fi.node, False))
+                run.check(fi is gate and in_test, r, fi.short, 'read of _ignore_contract in the gate test only',
                           'behaviour other than contract evaluation depends on ignore_contract: runs with and without contract checking can differ', n_)
     run.check(nrd >= 1, r, gate.short, 'the gate reads _ignore_contract', '_ignore_contract is never read: ignore_contract=True has no effect through the gate', G)
     init = run.fn('Interpreter.__init__')
